@@ -22,6 +22,9 @@ import time
 VERIF = os.path.dirname(os.path.abspath(__file__))
 SIM = os.path.join(VERIF, "sim")
 BIN = os.path.join(SIM, "target", "release")
+# the same simulators built against falcon's default configuration (RC = Rc, no thread_safe)
+RC_TARGET = os.path.join(SIM, "target-rc")
+BIN_RC = os.path.join(RC_TARGET, "release")
 REPLAYS = os.path.join(VERIF, "replays")
 EVIDENCE = os.path.join(VERIF, "evidence")
 KNOWN = os.path.join(VERIF, "known_findings.json")
@@ -63,8 +66,8 @@ def die(msg, code=2):
     sys.exit(code)
 
 
-def build(extra_args=(), target_dir=None, quiet=False):
-    cmd = ["cargo", "build", "--release", "--offline", "--bins"] + list(extra_args)
+def build(extra_args=(), target_dir=None, quiet=False, bins=None):
+    cmd = ["cargo", "build", "--release", "--offline"] + (sum([["--bin", b] for b in bins], []) if bins else ["--bins"]) + list(extra_args)
     env = dict(ENV)
     if target_dir:
         env["CARGO_TARGET_DIR"] = target_dir
@@ -242,8 +245,13 @@ def replay_file(path, timeout=600):
     with open(path) as f:
         rep = json.load(f)
     prop = rep["property"]
+    bindir = BIN
+    if rep.get("config") == "rc":
+        bindir = BIN_RC
+        if not os.path.exists(os.path.join(BIN_RC, ENGINE[prop])):
+            build(["--no-default-features"], target_dir=RC_TARGET, bins=["cowsim", "liftsim"], quiet=True)
     if rep.get("engine") == "crash":
-        cmd = [os.path.join(BIN, rep.get("binary") or ENGINE[prop]), "--prop", prop, "--tier", rep["tier"], "--seed", str(rep["batch_seed"]),
+        cmd = [os.path.join(bindir, rep.get("binary") or ENGINE[prop]), "--prop", prop, "--tier", rep["tier"], "--seed", str(rep["batch_seed"]),
                "--from", str(rep["index"]), "--to", str(rep["index"] + 1), "--replay-dir", tempfile.gettempdir()] + rep.get("extra", [])
         try:
             p = subprocess.run(cmd, stdout=subprocess.PIPE, stderr=subprocess.STDOUT, env=ENV, timeout=rep.get("stall_s", 60), text=True)
@@ -255,7 +263,7 @@ def replay_file(path, timeout=600):
     if rep.get("engine") == "range":
         # the violation needs the runs before it in the same process: re-run the slice
         tmpd = tempfile.mkdtemp(prefix="range-replay-", dir=os.path.join(VERIF, "work"))
-        cmd = [os.path.join(BIN, ENGINE[prop]), "--prop", prop, "--tier", rep["tier"], "--seed", str(rep["batch_seed"]),
+        cmd = [os.path.join(bindir, ENGINE[prop]), "--prop", prop, "--tier", rep["tier"], "--seed", str(rep["batch_seed"]),
                "--from", str(rep["from"]), "--to", str(rep["index"] + 1), "--replay-dir", tmpd]
         try:
             p = subprocess.run(cmd, stdout=subprocess.PIPE, stderr=subprocess.DEVNULL, env=ENV, timeout=timeout, text=True)
@@ -271,7 +279,7 @@ def replay_file(path, timeout=600):
                             prop, v["class"], rep["index"], rep["from"], rep["index"] - 1, v["detail"][:300])
         return False, "run index %d shows no %s after runs %d.. in a fresh process" % (rep["index"], rep["class"], rep["from"])
     binary = "cowshuttle" if rep.get("engine") == "shuttle" else ENGINE[prop]
-    cmd = [os.path.join(BIN, binary), "--prop", prop, "--replay", path] + rep.get("extra", [])
+    cmd = [os.path.join(bindir, binary), "--prop", prop, "--replay", path] + rep.get("extra", [])
     try:
         p = subprocess.run(cmd, stdout=subprocess.PIPE, stderr=subprocess.STDOUT, env=ENV, timeout=timeout, text=True)
     except subprocess.TimeoutExpired:
@@ -335,6 +343,31 @@ def check(prop, tier, seed, nworkers, scale):
         summaries += s2
         crashes += c2
 
+    rc_runs = 0
+    if tier == "thorough":
+        # falcon's default configuration: RC = Rc instead of Arc (lib.rs). The quick budget is
+        # run again with the simulators built without the thread_safe feature.
+        build(["--no-default-features"], target_dir=RC_TARGET, bins=["cowsim", "liftsim"])
+        rc_runs = max(nworkers, int(BUDGET[(prop, "quick")] * scale))
+        s4, c4, _, tmp4 = run_workers(prop, seed, tier, rc_runs, nworkers, BIN_RC, [], stall_s)
+        for c in c4:
+            c["engine"], c["extra"], c["bindir"] = ENGINE[prop], [], BIN_RC
+        for s_ in s4:
+            for v in s_["violations"]:
+                v["_config"] = "rc"
+                if v["replay"]:
+                    # the replay file has to name the configuration it fails in
+                    try:
+                        with open(v["replay"]) as f:
+                            rep_ = json.load(f)
+                        rep_["config"] = "rc"
+                        with open(v["replay"], "w") as f:
+                            json.dump(rep_, f, indent=1)
+                    except Exception as e:
+                        die("cannot tag replay file %s: %s" % (v["replay"], e))
+        summaries += s4
+        crashes += c4
+
     determinism = None
     if tier == "thorough":
         # determinism self-check on a sample: the same 600 run indices executed twice, in
@@ -355,7 +388,7 @@ def check(prop, tier, seed, nworkers, scale):
             # costs a full watchdog period)
             log("note: worker %d also died (%s) at run index %s; not confirmed individually" % (c["worker"], c["kind"], c["index"]))
             continue
-        conf = confirm_crash(prop, seed, tier, c, BIN, c["extra"], CONFIRM_S, engine=c["engine"])
+        conf = confirm_crash(prop, seed, tier, c, c.get("bindir", BIN), c["extra"], CONFIRM_S, engine=c["engine"])
         confirmed_crashes += 1
         if conf is None:
             die("worker %d %s at run index %s but the run does not %s in isolation (worker output kept in %s)"
@@ -363,6 +396,7 @@ def check(prop, tier, seed, nworkers, scale):
         path = os.path.join(REPLAYS, "%s-%d-%d-crash.json" % (prop, seed, c["index"]))
         with open(path, "w") as f:
             json.dump({"property": prop, "engine": "crash", "binary": c["engine"], "extra": c["extra"], "class": conf["kind"],
+                       "config": "rc" if c.get("bindir") == BIN_RC else "arc",
                        "batch_seed": seed, "tier": tier, "index": c["index"], "stall_s": CONFIRM_S, "detail": conf}, f, indent=1)
         violations.append({"class": conf["kind"], "signature": "process %s (status %s)" % (conf["kind"], conf["rc"]),
                            "detail": conf["tail"], "replay": path, "index": c["index"], "confirmed_in_fresh_process": True})
@@ -412,7 +446,7 @@ def check(prop, tier, seed, nworkers, scale):
             range_replays += 1
             rpath = os.path.join(REPLAYS, "%s-%d-%d-range.json" % (prop, seed, v["index"]))
             with open(rpath, "w") as f:
-                json.dump({"property": prop, "engine": "range", "tier": tier, "batch_seed": seed, "from": v["_lo"], "index": v["index"],
+                json.dump({"property": prop, "engine": "range", "config": v.get("_config", "arc"), "tier": tier, "batch_seed": seed, "from": v["_lo"], "index": v["index"],
                            "class": v["class"], "signature": v["signature"], "detail": v["detail"],
                            "note": "the minimised run alone does not fail in a fresh process (%s); runs from..index of the batch do" % os.path.basename(v["replay"])},
                           f, indent=1)
@@ -483,6 +517,7 @@ def check(prop, tier, seed, nworkers, scale):
             "workers": nworkers,
             "determinism_selfcheck": ("identical event logs for 600 run indices executed twice with 2 and 5 workers" if determinism else "quick tier: not run (see `run.py selfcheck`)"),
             "shuttle_scripts": shuttle_scripts,
+            "runs_in_default_rc_configuration": rc_runs,
             "shuttle_schedules_explored": counters.get("shuttle.iterations-random", 0) + counters.get("shuttle.iterations-pct", 0),
             "worker_crashes": len(crashes),
             "violations_new": new_violations,
